@@ -1,5 +1,5 @@
 (* C16 — Message framing does not depend on how the transport chunks the bytes.  Statement file. *)
-From V Require Import Model.Msgs Proofs.WireP Proofs.SafeP Proofs.CodecP.
+From V Require Import Model.Msgs Proofs.WireP Proofs.SafeP Proofs.CodecP Proofs.StreamP.
 
 (* general theorem: a decoder all of whose multi-byte reads are full reads (single reads ask for at most
    one byte) gives the same result on every partition of the byte stream into non-empty chunks (stream
@@ -26,6 +26,13 @@ Proof.
   apply dec_envelope_rt. exact We.
 Qed.
 Print Assumptions C16_native_envelope_any_chunking.
+
+(* consecutive envelopes on one stream are all decoded, in order, under EVERY chunking of the stream *)
+Theorem C16_native_stream_any_chunking : forall rs es, forallb (envelope_wf rs) es = true ->
+  forall cs, Forall nonempty cs -> concat cs = cat enc_envelope es ->
+  dec_chunks_all (dec_envelope rs) (S (length es)) cs = Some es.
+Proof. exact native_stream_any_chunking. Qed.
+Print Assumptions C16_native_stream_any_chunking.
 
 Example C16_nonvacuous :
   let bs := enc_envelope (mkEnv [(0%Z, repeat Byte.x0a 32)] [(0%Z, repeat Byte.x0b 32)] (MPing 5)) in
